@@ -146,6 +146,28 @@ def case_roundtrip(case):
             if not ok:
                 vs.append(V("round-trip-not-identity", label=L, kind=kind, position=pos, got=got, want=want, ulps=ulps(got, want),
                             exclude_non_vary=ex))  # fmt: skip
+    # the parameter history records the parameter values; restoring a record is the identity
+    from glotaran.parameter import ParameterHistory
+
+    with warnings.catch_warnings():
+        warnings.simplefilter("ignore")
+        hist = ParameterHistory()
+        hist.append(params)
+        rec = hist.get_parameters(0)[1:]
+        for L, v in zip(list(hist.parameter_labels)[1:], rec):
+            kind = case["params"][labels.index(L)][0]
+            if kind != "expr" and not (float(v) == orig[L]):
+                vs.append(V("history-record-differs-from-parameter-value", label=L, kind=kind, got=float(v), want=orig[L]))
+        cp = params.copy()
+        for p in cp.all():
+            if p.expression is None:
+                p.value = 0.5 * p.value + 0.125
+        cp.set_from_history(hist, 0)
+        for L in labels:
+            kind = case["params"][labels.index(L)][0]
+            got, want = float(cp.get(L).value), orig[L]
+            if ulps(got, want) > 8:
+                vs.append(V("restore-from-history-not-identity", label=L, kind=kind, got=got, want=want))
     kinds = sorted({k for k, _ in case["params"]})
     return core.ok(key=case["params"] + [case.get("style", 0)] if kinds != ["free"] else None, outcome=[len(vs)], violations=vs)
 
